@@ -21,7 +21,7 @@ META = {
             "(chunk vector with start_/size_/capacity_ index arithmetic, any chunk size, held iterator), SLList at pointer level (heap of nodes, sentinel, "
             "tail_, modify iterators, copy/assignment/comparison), lru (node list + key index), ReservedVector (array + size_) - produce exactly "
             "(ReservedVector: match, unspecified values after a growing resize excepted) the observations of the abstract sequence / recency-ordered map; "
-            "BitSetVector only has the addressing lemma proved (C11_bitset_addressing_partial), its histories are covered by the correspondence run alone.  "
+            "BitSetVector (flat vector<bool> + block proxies, every block size >= 1) refines the list of std::bitset blocks.  "
             "Three refutation theorems give Coq witnesses for the snapshot's purge / self-assignment / insert-present-key defects.  The models are tied to "
             "the headers on every run: the real containers (ASan+UBSan build of the working tree) and the extracted models execute the same histories and "
             "their observations after every operation are compared with the extracted spec oracle.",
@@ -346,6 +346,25 @@ def build_impl(ctx, pr):
     return {k: ctx.path("impl_" + b) for k, b in CONT.items()}
 
 
+def build_deep(ctx, pr):
+    """OPTIONAL deep drivers (private members read with g++ -fno-access-control); a compile failure only downgrades the evidence"""
+    from concurrent.futures import ThreadPoolExecutor
+    def one(kb):
+        k, b = kb
+        flags = ["-DC11_DEEP", "-fno-access-control"]
+        if k == "sl" and pr["probe_sllist"][0]: flags.append("-DC11_SL_DEFAULT_ALLOC")
+        try:
+            V.cxx(ctx, [os.path.join(H, b + ".cc")], ctx.path("deep_" + b), san=True, flags=flags)
+            return k, ctx.path("deep_" + b), None
+        except V.BuildError as e:
+            return k, None, "deep driver for %s does not compile against this tree (private members renamed?): deep stream skipped; %s" % (b, str(e)[-300:].replace("\n", " "))
+    with ThreadPoolExecutor(max_workers=2) as ex:
+        res = list(ex.map(one, [("al", "arraylist"), ("sl", "sllist")]))
+    for k, path, err in res:
+        if err: ctx.notes.append(err)
+    return {k: path for k, path, err in res if path}
+
+
 SAN_ENV = {"ASAN_OPTIONS": "detect_leaks=1:abort_on_error=0:symbolize=0", "UBSAN_OPTIONS": "print_stacktrace=0"}
 
 
@@ -383,11 +402,12 @@ def spec_match(spec_step, impl_step):
 
 def judge(case, impl, model_line):
     """oracle: the spec applied to the impl's own output.  Returns dict(ok, step, op, reason, sig, drift)"""
-    m, s, o = [x.strip() for x in model_line.split(SEP.strip())] if model_line.count("##") == 2 else ("?", "?", "?")
+    parts = [x.strip() for x in model_line.split(SEP.strip())]
+    m, s, o = parts[:3] if len(parts) >= 3 else ("?", "?", "?")
     t = case.split()
     k, ops = t[0], t[2:]
     ist, sst, mst = impl.split(";"), s.split(";"), m.split(";")
-    res = {"ok": True, "model": m, "spec": s, "orig": o, "drift": None}
+    res = {"ok": True, "model": m, "spec": s, "orig": o, "drift": None, "deep": parts[3] if len(parts) > 3 else "-"}
     if "PRE" in sst or "UNKNOWN" in s:
         res["ok"] = None      # generator emitted a history outside the documented preconditions: not judged
         return res
@@ -439,7 +459,11 @@ def run(ctx):
     V.coq_stage(ctx)
     model = V.build_model(ctx)
     pr = probes(ctx)
-    impls = build_impl(ctx, pr)
+    from concurrent.futures import ThreadPoolExecutor
+    with ThreadPoolExecutor(max_workers=2) as ex:
+        fdeep = ex.submit(build_deep, ctx, pr)
+        impls = build_impl(ctx, pr)
+        deep = fdeep.result()
     if not pr["probe_sllist"][0]:
         ctx.violation("C11:sllist:compile:push_front-default-allocator",
                       {"case": "harness/C11/probe_sllist.cc", "oracle": "SLList<int> (default allocator) must compile push_front under -std=gnu++20", "log": pr["probe_sllist"][1]})
@@ -452,6 +476,23 @@ def run(ctx):
     ctx.log("model done")
     io = [canon_impl(l) for l in run_impl(ctx, impls, cases)]
     ctx.log("impl done")
+    # deep stream: private state of ArrayList / SLList against the model's internal state (drift is evidence, not a violation)
+    deep_cmp = deep_diff = 0
+    deep_samples = []
+    if deep:
+        didx = [i for i, c in enumerate(cases) if c.split(" ", 1)[0] in deep]
+        dout = run_impl(ctx, deep, [cases[i] for i in didx], tag="deep")
+        for i, d in zip(didx, dout):
+            parts = [x.strip() for x in mo[i].split(SEP.strip())]
+            if len(parts) < 4 or "UB" in parts[3] or "PRE" in parts[1]:
+                continue
+            deep_cmp += 1
+            if canon_impl(d) != parts[3] and io[i] == parts[0]:
+                deep_diff += 1
+                if len(deep_samples) < 3: deep_samples.append({"case": cases[i][:200], "impl_private_state": d[:300], "model_private_state": parts[3][:300]})
+        if deep_diff:
+            ctx.notes.append("MODEL DRIFT (deep stream): private state differs from the model on %d histories while the public stream agrees" % deep_diff)
+        ctx.log("deep stream: %d histories compared, %d differ" % (deep_cmp, deep_diff))
     nviol = ndrift = nskip = nms = 0
     steps = 0
     kinds, opk, fails_by_sig = {}, {}, {}
@@ -511,10 +552,11 @@ def run(ctx):
         "impl_model_disagreements_accepted_by_oracle": ndrift, "histories_outside_preconditions_skipped": nskip, "model_spec_mismatches": nms,
         "sanitizer": "all impl runs are -fsanitize=address,undefined -fno-sanitize-recover=all; an abort inside a history is the observation UB",
         "compile_probes": {k: v[0] for k, v in pr.items()}, "exhaustive": False,
+        "harness_workarounds_active": [n for n, ok in (("sllist: allocator with allocate(n,hint)", pr["probe_sllist"][0]), ("lru: <cassert> included by the driver", pr["probe_lru"][0])) if not ok],
+        "deep_stream": {"drivers_built": sorted(deep), "histories_compared": deep_cmp, "histories_with_private_state_drift": deep_diff, "drift_samples": deep_samples,
+                        "observables": "ArrayList start_,size_,capacity_,null-chunk pattern; SLList tail_ = last reachable node, size_ = #reachable nodes"},
         "traces_validated_against_impl": len(cases),
     })
-    ctx.notes.append("BitSetVector: refinement over histories NOT proved (only C11_bitset_addressing_partial); covered by correspondence + oracle only")
-    ctx.notes.append("deep stream (ArrayList start_/capacity_/null pattern, SLList tail_ reachability) not implemented: public observations only")
     ctx.assumptions += ["std::list / std::map / std::vector<bool> / std::bitset / std::array / std::shared_ptr taken at their abstract semantics",
                         "element type int in the impl drivers, polymorphic T in the theorems",
                         "ArrayList model holds chunks by value (no aliasing of shared_ptr after the proposed purge fix); the snapshot's aliasing is modelled separately with chunk identities (c11_alo_*)"]
